@@ -157,6 +157,7 @@ def run(rep, tier):
     rep.rule("R1", "mirror equivariance of topology tables")
     rep.rule("R2", "psi-family consistency of sign/scale options; f_psi_sign uniformity")
     rep.rule("R3", "definite parity of written fields under psi and fpol reversal")
+    rep.rule("R5", "poloidal spacing functions of a region and of its mirror image (lower/upper end parameters exchanged) are reflections of each other, s'(i) = L - s(N - i), for all indices including the guard-cell extrapolations")
     rep.rule("R4", "the radial grid function is odd under psi -> -psi: arm selection does not depend on the sign of psi, each arm maps (-lower,-upper,-grads) to the negated function")
     T = lambda n, s=False: tables.topology(prog, n, s)
     pairs = [("mu(LSN)==USN", T("LSN"), T("USN")),
@@ -183,8 +184,100 @@ def run(rep, tier):
     r2(prog, rep)
     r3(prog, rep)
     r4(prog, rep)
+    r5(prog, rep)
     rep.undecided("numerical equality of mirrored grids; leg tracing order inner/outer by strike-point R (C19)")
     return __doc__
+
+
+def r5(prog, rep):
+    """Reflection in the midplane turns an `X.wall` leg into a `wall.X` leg: the poloidal index runs
+    the other way and the parameters given for the lower end are now those of the upper end.  The
+    reflected grid has the reflected points iff s_mirror(i) == L - s(N - i) for every index the
+    function is evaluated at - interior indices and, with y_boundary_guards > 0, the extrapolated
+    guard-cell indices below 0 and above N.  Decided as identities between the constructor arms of
+    C10 (sqrt family with every combination of given end parameters, monotonic, linear)."""
+    from . import c10
+    from ..spacing import Piecewise
+    site = c10.EQ
+    swap = {"a_lower": "a_upper", "a_upper": "a_lower", "b_lower": "b_upper", "b_upper": "b_lower", "d_lower": "d_upper", "d_upper": "d_lower"}
+    pairs = []
+    arms = dict(c10.sqrt_arms())
+    for label, spec in arms.items():
+        mspec = {k: spec[swap[k]] for k in spec}
+        mlabel = next(l for l, sp in arms.items() if sp == mspec)
+        pairs.append((label, mlabel, lambda ctx, sp=spec: c10.build_sqrt(prog, sp, 1, ctx), lambda ctx, sp=mspec: c10.build_sqrt(prog, sp, 1, ctx)))
+    for conc in (False, True):
+        lab = "monotonic/%s" % ("concave" if conc else "convex")
+        pairs.append((lab, lab, lambda ctx, c=conc: c10.build_mono(prog, c, 1, ctx), lambda ctx, c=conc: c10.build_mono(prog, c, 1, ctx)))
+    pairs.append(("linear", "linear", lambda ctx: c10.build_linear(prog, 1, ctx), lambda ctx: c10.build_linear(prog, 1, ctx)))
+    n = 0
+    for label, mlabel, build_a, build_b in pairs:
+        ctx = Context()
+        try:
+            _, exa, fa, sya = build_a(ctx)
+            _, exb, fb, syb = build_b(ctx)
+            i = ctx.sym("i")
+            va = exa.call_closure(fa, [i], {})
+            vb = exb.call_closure(fb, [i], {})
+        except (AlgError, PathRaises) as e:
+            rep.ob("R5", "%s: arm and its mirror arm extractable" % label, False, site, "not representable: %s" % e, key="spacing-mirror/%s/extract" % label)
+            continue
+        if getattr(exa, "roots", None) or getattr(exb, "roots", None):
+            # arms closed by a root finder: the reflected constraint has the reflected root; the
+            # identity is checked with the root symbol shared
+            if exa.roots and exb.roots:
+                sub_root = {exb.roots[0][0].as_atom(): exa.roots[0][0]}
+            else:
+                sub_root = {}
+        else:
+            sub_root = {}
+        L, N = sya["L"], sya["N"]
+        # exchange the roles of the end parameters in the mirror arm (simultaneous substitution)
+        tmp = {k: ctx.sym("tmp_" + k) for k in swap}
+        def mirror_params(v):
+            v = v.subs({k: tmp[k] for k in swap if syb.get(k) is not None})
+            return v.subs({"tmp_" + k: ctx.sym(swap[k]) for k in swap})
+        if sub_root:
+            # the mirror arm's root is the same number only if its constraint, with the end
+            # parameters exchanged, is the same equation for the root
+            try:
+                same = (mirror_params(exb.roots[0][2]).subs(sub_root) - exa.roots[0][2]).is_zero() or (mirror_params(exb.roots[0][2]).subs(sub_root) + exa.roots[0][2]).is_zero()
+            except AlgError:
+                same = False
+            if not same:
+                rep.undecided("%s: reflection identity of an arm closed by a root finder whose constraint is not symmetric under the exchange of the end parameters (the reflected root is a different number)" % label)
+                continue
+        pa = va.pieces if isinstance(va, Piecewise) else {"inside": va}
+        pb = vb.pieces if isinstance(vb, Piecewise) else {"inside": vb}
+        for piece_a, piece_b, what in (("inside", "inside", "interior"), ("above", "below", "guard cells above N <-> below 0"), ("below", "above", "guard cells below 0 <-> above N")):
+            if piece_a not in pa and piece_b not in pb:
+                continue
+            n += 1
+            key = "spacing-mirror/%s/%s" % (label, piece_a)
+            if piece_a not in pa or piece_b not in pb:
+                rep.ob("R5", "%s <-> %s: %s: both arms extrapolate" % (label, mlabel, what), False, site,
+                       "only one of the two mirror arms has an extrapolation piece there: the guard cells of one target are extrapolated, those of its mirror image are not", key=key)
+                continue
+            try:
+                a_ref = pa[piece_a].subs({"i": N - i})        # s(N - i)
+                b_val = mirror_params(pb[piece_b]).subs(sub_root) if sub_root else mirror_params(pb[piece_b])
+                d = b_val - (L - a_ref)
+                ok = d.is_zero()
+                if not ok and sub_root:
+                    # equal up to the arm's own root-finder constraint (zero at the root)
+                    cons = exa.roots[0][2]
+                    ok = (d - cons).is_zero() or (d + cons).is_zero()
+                    if not ok:
+                        # ... or: the difference does not depend on i (its derivative vanishes
+                        # identically; logarithms of i-dependent arguments drop out there) and at
+                        # i = 0 it is the constraint
+                        d0 = d.subs({"i": 0})
+                        ok = d.diff("i").is_zero() and (d0.is_zero() or (d0 - cons).is_zero() or (d0 + cons).is_zero())
+                detail = "" if ok else "residual " + d.residual()[:200]
+            except AlgError as e:
+                ok, detail = False, "not representable: %s" % e
+            rep.ob("R5", "%s <-> %s: %s: s_mirror(i) == L - s(N - i)" % (label, mlabel, what), ok, site, detail, key=key)
+    rep.floor("R5.pieces", n, 14)
 
 
 def r4(prog, rep):
